@@ -420,6 +420,7 @@ def run(ctx):
     repo_models(ctx, home)
     fixed_width_record_scenarios(ctx, home)
     imported_record_scenario(ctx, home)
+    numeric_conversion_scenario(ctx, home)
     cxx.prune_cache()
 
 
@@ -525,6 +526,74 @@ def fixed_width_record_scenarios(ctx, home):
                     bad = True
         if not bad:
             shutil.rmtree(base, ignore_errors=True)
+
+
+def numeric_conversion_scenario(ctx, home):
+    """every ordered pair of integer types as a changed record field: boundary values that fit are converted exactly in both directions; a value
+    that does not fit the other version's type is the documented numeric-overflow runtime error, one field at a time (all other fields hold 0)"""
+    ints = ["int8", "uint8", "int16", "uint16", "int32", "uint32", "int64", "uint64"]
+    pairs = [(o, n) for o in ints for n in ints if o != n]
+    fname = lambda o, n: "f%s%s" % (o.replace("int", "i").replace("ui", "u"), n.replace("int", "i").replace("ui", "u"))
+
+    def mk(side, versions, d):
+        return Pkg("Evo", [Rec("Nums", [(fname(o, n), P((o, n)[side])) for o, n in pairs]),
+                           Proto("Evo", [("one", N("Nums")), ("many", S(N("Nums"))), ("vec", V(N("Nums")))])], [], versions, d)
+    old = mk(0, [], "v0")
+    new = mk(1, [("v0", old)], "v1")
+    base = os.path.join(ctx.workdir, "cases", "numconv")
+    shutil.rmtree(base, ignore_errors=True)
+    opts = lambda d: emit.default_outputs(d, python=False, cpp_opts=cxx.cpp_gen_options({"generateNDJson": False}))
+    common.write_tree(base, emit.package_files(new, None, opts("../out_new")))
+    common.write_tree(os.path.join(base, "solo"), emit.package_files(old, None, opts("../out_old")))
+    p1 = cli.run_cli("generate", os.path.join(base, new.dir), home)
+    p0 = cli.run_cli("generate", os.path.join(base, "solo", old.dir), home)
+    ctx.ev(2)
+    if p1.rc != 0 or p0.rc != 0:
+        ctx.violation("rejected:numeric-conversion", "integer -> integer changes of record fields rejected: %s" % cli.clean(p1.stderr + p0.stderr)[:300], {"case_dir": base})
+        return
+    lit = lambda path: re.search(r'std::string EvoWriterBase::schema_ = R"\((.*?)\)";', open(path).read(), re.S).group(1)
+    sch_old, sch_new = lit(os.path.join(base, "solo/out_old/cpp/protocols.cc")), lit(os.path.join(base, "out_new/cpp/protocols.cc"))
+    try:
+        exe_new = cxx.build(os.path.join(base, "out_new/cpp"), "plain")
+        exe_old = cxx.build(os.path.join(base, "solo/out_old/cpp"), "plain")
+    except cxx.CompileError as e:
+        ctx.violation("cpp-compile-failed:numeric-conversion", "generated conversion code does not compile: %s" % str(e)[-400:], {"case_dir": base})
+        return
+    co, cn = Codec(old), Codec(new)
+    po, pn = old.find("Evo"), new.find("Evo")
+    bad = False
+    rec = lambda f: [f(o, n) for o, n in pairs]
+    fits = {"common-max": lambda o, n: min(INT_RANGE[o][1], INT_RANGE[n][1]), "common-min": lambda o, n: max(INT_RANGE[o][0], INT_RANGE[n][0]),
+            "one": lambda o, n: 1, "common-max-1": lambda o, n: min(INT_RANGE[o][1], INT_RANGE[n][1]) - 1}
+    for name, f in fits.items():
+        vals = [rec(f), [rec(f), rec(lambda o, n: 0)], [rec(f)]]
+        for direction, (ca, pa, cb, pb, sa, sb, args) in {"read-old": (co, po, cn, pn, sch_old, sch_new, []), "write-old": (cn, pn, co, po, sch_new, sch_old, ["--version", "v0"])}.items():
+            want = conv_protocol(ca, pa, cb, pb, vals)
+            pr = cxx.run_driver(exe_new, ["Evo", "bin", "bin"] + args, ca.encode_stream(pa, sa, vals), "plain")
+            ctx.ev()
+            ctx.count("numconv.fits")
+            ctx.case(("numconv", name, direction))
+            if not judge(ctx, cb, pb, [want], pr, sb, "integer conversions, boundary values that fit (%s), %s" % (name, direction), {"case_dir": base}, direction + ":numconv", alternatives=True):
+                bad = True
+    for o, n in pairs:
+        for direction, (src, dst, ca, pa, sa, args) in {"read-old": (o, n, co, po, sch_old, []), "write-old": (n, o, cn, pn, sch_new, ["--version", "v0"])}.items():
+            outs = [v for v in (INT_RANGE[src][1], INT_RANGE[src][0]) if not INT_RANGE[dst][0] <= v <= INT_RANGE[dst][1]]
+            for v in outs:
+                one = rec(lambda a, b: v if (a, b) == (o, n) else 0)
+                vals = [one, [], []]
+                pr = cxx.run_driver(exe_new, ["Evo", "bin", "bin"] + args, ca.encode_stream(pa, sa, vals), "plain")
+                ctx.ev()
+                ctx.count("numconv.overflow")
+                ctx.case(("numconv-overflow", o, n, direction, v))
+                what = "field %s -> %s, %s: the value %d does not fit %s" % (o, n, direction, v, dst)
+                if pr.sig is not None:
+                    ctx.violation("crash:%s-overflow" % direction, "%s: driver died with signal %s" % (what, pr.sig), {"case_dir": base, "stderr": pr.stderr[-500:]})
+                    bad = True
+                elif pr.rc == 0:
+                    ctx.violation("silent-overflow:%s" % direction, "%s but was converted silently instead of raising the documented numeric-overflow error" % what, {"case_dir": base, "pair": [o, n], "value": v})
+                    bad = True
+    if not bad:
+        shutil.rmtree(base, ignore_errors=True)
 
 
 def imported_record_scenario(ctx, home):
